@@ -238,9 +238,11 @@ func (cl *Client) refreshSession(s *session) (bool, error) {
 	s.mux.RLock()
 	realm := s.realm
 	renewTill := s.renewTill
+	endTime := s.endTime
 	s.mux.RUnlock()
 	cl.Log("refreshing TGT session for %s", realm)
-	if time.Now().UTC().Before(renewTill) {
+	// A TGT can only be renewed while it is still valid. Once it has expired a new one has to be requested.
+	if t := time.Now().UTC(); t.Before(renewTill) && t.Before(endTime) {
 		err := cl.renewTGT(s)
 		return true, err
 	}
